@@ -47,6 +47,44 @@ def _un(s):
     return s.replace(NUL, '\0')
 
 
+class CacheCall:
+    """a call of a function memoised with nutils.cache.function; its "hash" is the name of the cache file"""
+
+    def __init__(self, func, args, kwargs):
+        self.func, self.args, self.kwargs = func, args, kwargs
+
+    def __reduce__(self):
+        raise pickle.PicklingError('a call is not a value')
+
+    def key(self):
+        import tempfile, shutil, os, treelog
+        from nutils import cache
+        d = tempfile.mkdtemp(prefix='c17cache')
+        try:
+            with treelog.set(treelog.NullLog()), cache.enable(d):
+                r = self.func(*self.args, **self.kwargs)
+            names = os.listdir(d)
+        finally:
+            shutil.rmtree(d, ignore_errors=True)
+        assert len(names) == 1 and len(names[0]) == 40, names
+        bytes.fromhex(names[0])
+        return names[0]
+
+
+def nutils_digest(v):
+    """hex digest of a materialised value (cache file name for calls), or 'raise:..' / 'notbytes:..'"""
+    from nutils import types
+    try:
+        if isinstance(v, CacheCall):
+            return v.key()
+        h = types.nutils_hash(v)
+    except AssertionError:
+        raise
+    except Exception as e:
+        return 'raise:' + type(e).__name__
+    return h.hex() if isinstance(h, bytes) else 'notbytes:' + type(h).__name__
+
+
 class Registry:
     def __init__(self, classtab):
         from nutils import types
@@ -61,6 +99,10 @@ class Registry:
             params = list(c['params'])
             ndef = c['ndef']
             ns = {'__module__': c['mod'], '__qualname__': c['qual']}
+            if base == 'function':
+                assert params == ['a', 'b'] and ndef == 1
+                self.cls[key] = self._memoised(c)
+                continue
             if base == 'plain':
                 cls = type(c['name'], (), dict(ns, tagged=key))
             elif base == 'namedtuple':
@@ -96,6 +138,32 @@ class Registry:
             if not hasattr(m, c['qual']):
                 setattr(m, c['qual'], cls)
             self.cls[key] = cls
+
+    @staticmethod
+    def _memoised(c):
+        from nutils import cache
+        def f(a, b=2):
+            return (a, b)
+        f.__name__ = c['name']
+        f.__qualname__ = c['qual']
+        f.__module__ = c['mod']
+        g = cache.function(f, version=int(c['ver']))
+        return g
+
+    def call(self, p, kids):
+        key, route = p
+        f = self.cls[key]
+        a, b = (self.build(k) for k in kids)
+        if route == 'pos':
+            return CacheCall(f, (a, b), {})
+        if route == 'kw':
+            return CacheCall(f, (), dict(b=b, a=a))
+        if route == 'mixed':
+            return CacheCall(f, (a,), dict(b=b))
+        if route == 'default':
+            assert b == 2 and type(b) is int
+            return CacheCall(f, (a,), {})
+        raise Unsupported(route)
 
     # ------------------------------------------------------------------
     def scalar(self, kind, r):
@@ -261,7 +329,118 @@ class Registry:
             return self.arraydata(p, c)
         if k == 'inst':
             return self.inst(p, c)
+        if k == 'call':
+            return self.call(p, c)
         raise Unsupported(k)
+
+
+# ----------------------------------------------------------------------
+# random terms of the same grammar (judged by TLC like the emitted ones)
+
+def _sc(k, r):
+    return [k, [r], []]
+
+
+_LEAVES = ([['none', [], []], ['ellipsis', [], []], _sc('bool', 'True'), _sc('bool', 'False')]
+           + [_sc('int', r) for r in ('0', '1', '2', '-1', '10', '255', '-128')]
+           + [_sc('float', r) for r in ('0.0', '-0.0', '1.0', '2.0', '0.5', 'inf', '-inf', '1e+100')]
+           + [_sc('complex', r) for r in ('0j', '(1+0j)', '1j', '(1+1j)')]
+           + [_sc('str', r) for r in ('', '1', 'a', 'ab', 'True', 'None', 'int', 'tuple', 'a~b', '1.0')]
+           + [_sc('bytes', r) for r in ('', '1', 'a', 'ab', 'a~b')]
+           + [['npscalar', list(p), []] for p in (('int64', 'int', '1'), ('int32', 'int', '1'), ('int8', 'int', '-1'), ('bool_', 'bool', 'True'),
+                                                   ('float64', 'float', '1.0'), ('float32', 'float', '0.5'), ('complex128', 'complex', '(1+0j)'))]
+           + [['type', [k], []] for k in ('int', 'bool', 'float', 'str', 'tuple', 'A1@m1', 'A1@m2', 'A2@m1', 'P@m1', 'Q@m1')])
+_EMPTY = ['tuple', [], []]
+
+
+def random_term(rng, depth, hashable=False, used=None):
+    """a random value term; hashable: usable as dict key / set element / argument of an interned class"""
+    if used is None:
+        used = set()
+    if depth == 0 or rng.random() < 0.25:
+        return rng.choice(_LEAVES)
+    kinds = ['tuple', 'tuple', 'frozenset', 'fdict', 'fms', 'nt', 'dc', 'inst', 'inst', 'hfunc', 'method', 'arraydata']
+    if not hashable:
+        kinds += ['list', 'dict', 'set', 'ndarray', 'nt', 'tuple']
+    k = rng.choice(kinds)
+    sub = lambda h=hashable: random_term(rng, depth - 1, h, used)
+    if k in ('tuple', 'list'):
+        return [k, [], [sub() for _ in range(rng.randrange(0, 4))]]
+    if k in ('dict', 'fdict'):
+        return [k, [], [['pair', [], [sub(True), sub(True if k == 'fdict' else hashable)]] for _ in range(rng.randrange(0, 3))]]
+    if k in ('set', 'frozenset'):
+        return [k, [], [sub(True) for _ in range(rng.randrange(0, 4))]]
+    if k == 'fms':
+        items = [sub(True) for _ in range(rng.randrange(0, 3))]
+        return [k, [], [x for x in items for _ in range(rng.randrange(1, 3))]]
+    if k == 'nt':
+        return [k, [rng.choice(['P@m1', 'P@m2', 'Q@m1'])], [sub(), sub()]]
+    if k == 'dc':
+        return [k, [rng.choice(['R@m1', 'R@m2', 'R2@m1'])], [sub(True), sub(True)]]
+    if k == 'inst':
+        free = [c for c in ('I1@m1', 'I1@m2', 'I1v1@m1', 'I2@m1', 'S1@m1', 'S1@m2', 'S2@m1', 'D1@m1', 'D1@m2', 'D2@m1') if c not in used]
+        if not free:
+            return rng.choice(_LEAVES)
+        key = rng.choice(free)
+        if key[0] in 'SD':
+            used.add(key)       # one live instance per interned class inside a value (interning is Intern.tla's subject)
+        a = sub(True)
+        b = rng.choice([_sc('int', '2'), _sc('int', '2'), sub(True)])
+        route = rng.choice(['pos', 'kw', 'mixed'] + (['default'] if b == _sc('int', '2') else []))
+        return [k, [key, route], [a, b] if key[0] == 'D' else [a, b, _EMPTY]]
+    if k == 'hfunc':
+        ident = sub(True)
+        if ident[0] in ('type', 'hfunc', 'method'):
+            ident = _sc('str', 'f')
+        return [k, [], [ident]]
+    if k == 'method':
+        key = rng.choice(['I1@m1', 'I2@m1', 'I1@m2'])
+        return [k, [rng.choice(['meth', 'other'])], [['inst', [key, 'pos'], [sub(True), _sc('int', '2'), _EMPTY]]]]
+    if k == 'ndarray':
+        dt = rng.choice(['<i8', '<i4', '>i8', '<f8', '|b1', '|u1', '<i2'])
+        shape = rng.choice([[], [0], [1], [2], [3], [1, 2], [2, 1], [2, 2], [1, 1, 2]])
+        size = 1
+        for n in shape:
+            size *= n
+        vals = ','.join(str(rng.randrange(0, 2)) for _ in range(size))
+        route = rng.choice(['C', 'F'] + (['view'] if len(shape) == 1 and size else []) + (['T'] if len(shape) == 2 else []))
+        return [k, [dt, vals, route], [_sc('int', str(n)) for n in shape]]
+    if k == 'arraydata':
+        knd = rng.choice(['int', 'int', 'bool', 'float', 'complex'])
+        shape = rng.choice([[], [0], [1], [2], [3], [1, 2], [2, 1], [2, 2]])
+        size = 1
+        for n in shape:
+            size *= n
+        vals = ','.join(str(rng.randrange(0, 2)) for _ in range(size))
+        routes = dict(int=['native', 'i32', 'i16', 'u8', 'list', 'be', 'F', 'wrap', 'reshape'], bool=['native', 'list', 'wrap'],
+                      float=['native', 'f32', 'list', 'F'], complex=['native', 'c64', 'list'])[knd]
+        route = rng.choice(routes)
+        if size == 0 and route == 'list' and knd != 'float':
+            route = 'native'      # numpy.asarray([]) is float64
+        return [k, [knd, vals, route], [_sc('int', str(n)) for n in shape]]
+    raise AssertionError(k)
+
+
+def random_terms(rng, n, reg):
+    """n distinct random terms that can be materialised faithfully (python-equal set elements etc. are discarded)"""
+    out, seen = [], set()
+    tries = 0
+    while len(out) < n and tries < 20 * n:
+        tries += 1
+        t = random_term(rng, rng.choice([1, 2, 2, 3]))
+        s = json.dumps(t)
+        if s in seen or len(s) > 1500:
+            continue
+        seen.add(s)
+        try:
+            v = reg.build(t)
+            del v
+        except AssertionError:
+            continue        # artefact of the generator (python-equal keys, ...)
+        except Mismatch:
+            pass            # judged later
+        out.append(t)
+    return out
 
 
 # ----------------------------------------------------------------------
@@ -465,13 +644,12 @@ def hash_terms(reg, terms):
     for t in terms:
         try:
             v = reg.build(t)
-        except Unsupported:
+        except (Unsupported, AssertionError):
             raise
-        try:
-            h = types.nutils_hash(v)
-            out.append(h.hex() if isinstance(h, bytes) else 'notbytes:' + type(h).__name__)
-        except Exception as e:
-            out.append('raise:' + type(e).__name__)
+        except Exception:
+            out.append(None)     # reported by the main process
+            continue
+        out.append(nutils_digest(v))
         del v
     return out
 
@@ -479,7 +657,11 @@ def hash_terms(reg, terms):
 def hash_real(tier):
     from nutils import types
     out = []
-    for label, obj in real_corpus(tier):
+    try:
+        corpus = real_corpus(tier)
+    except Exception as e:
+        return 'raise:' + type(e).__name__ + ':' + str(e)[:200]
+    for label, obj in corpus:
         try:
             out.append(types.nutils_hash(obj).hex())
         except Exception as e:
